@@ -45,6 +45,11 @@ fn check_one<CS: CLCiphersuite>(rep: &Report, ck: &str, c: &Case, keys: &[ClKey]
 
     let sig = Signature::<CL03<CS>>::sign_multiattr(pk, sk, &bases, &msgs);
     let (e, s, v) = sig_fields::<CS>(&sig);
+    // every signature of the run, on whatever thread, must have an exponent and an s of its own: two signatures
+    // under one key with the same e give (v1^2/v2, 2 s1 - s2) for the never-signed 2 m1 - m2
+    if let Some(which) = note_fresh(&e, &s) {
+        return rep.fail(ck, &format!("signature-{}-repeats", which), format!("the {} of a fresh signature was already used by another signature of this run (generators shared between threads or calls?)", which), cj(json!({"e": e.to_string()})));
+    }
 
     // ---- positive ----------------------------------------------------------------------------
     rep.eval(ck, 1);
@@ -287,6 +292,11 @@ fn check_one<CS: CLCiphersuite>(rep: &Report, ck: &str, c: &Case, keys: &[ClKey]
     pk2.c = (&pk.c * &pk.c).complete() % nn;
     reject("other-key:c-changed", &sig, &msgs, &bases, &pk2, "c := c^2".into())?;
 
+    // the same signature object after all the refused statements: still valid for its own
+    rep.eval(ck, 1);
+    if !sig.verify_multiattr(pk, &bases, &msgs) {
+        return rep.fail(ck, "issued-signature-rejected-after-refusals", "the same signature object no longer verifies for its own attributes after other statements were refused on it".into(), cj(json!(null)));
+    }
     if n >= 2 || families > 0 {
         rep.nontrivial(ck, &json!({"c": c, "key": key.id}));
     }
@@ -297,6 +307,20 @@ fn check_one<CS: CLCiphersuite>(rep: &Report, ck: &str, c: &Case, keys: &[ClKey]
     }
     rep.sample(ck, json!({"key": key.id, "n": n, "attributes": vals.iter().map(short).collect::<Vec<_>>(), "e_bits": e.significant_bits()}));
     Ok(())
+}
+
+/// run-wide record of the random components of every issued signature; returns which one repeats
+fn note_fresh(e: &Integer, s: &Integer) -> Option<&'static str> {
+    static SEEN: std::sync::Mutex<Option<(std::collections::HashSet<Integer>, std::collections::HashSet<Integer>)>> = std::sync::Mutex::new(None);
+    let mut g = SEEN.lock().unwrap();
+    let (es, ss) = g.get_or_insert_with(Default::default);
+    if !es.insert(e.clone()) {
+        return Some("exponent e");
+    }
+    if !ss.insert(s.clone()) {
+        return Some("component s");
+    }
+    None
 }
 
 pub fn run_suite(ctx: &Ctx, rep: &Report, suite: ClSuite, n_gen: usize, n_fix: usize, cases: u32) {
@@ -327,6 +351,12 @@ pub fn run_suite(ctx: &Ctx, rep: &Report, suite: ClSuite, n_gen: usize, n_fix: u
                     let n = 1 + k % 2;
                     let msgs: Vec<CL03Message> = (0..n).map(|i| CL03Message::new(attr((k + i) as u8 % 6 + if k % 3 == 0 { 0 } else { 4 }, &mut st))).collect();
                     let sig = Signature::<CL03<CS>>::sign_multiattr(pk, sk, &bases, &msgs);
+                    {
+                        let (e, s, _) = sig_fields::<CS>(&sig);
+                        if let Some(which) = note_fresh(&e, &s) {
+                            return rep.fail(&ck3, &format!("signature-{}-repeats", which), format!("signature #{} of worker {}: its {} was already used by another signature of this run", k, w, which), json!({"volume": {"key": key.id, "e": e.to_string()}}));
+                        }
+                    }
                     rep.eval(&ck3, 2);
                     let back = catch(|| Signature::<CL03<CS>>::from_bytes(&sig.to_bytes()));
                     let ok1 = sig.verify_multiattr(pk, &bases, &msgs);
@@ -355,7 +385,7 @@ pub fn run(ctx: &Ctx, rep: &Report) -> Meta {
     }
     Meta {
         rule: "key from a pool (KeyPair::generate() keys and keys built from pre-computed safe primes through the public constructors), n = 1..5 attributes from {0, 1, 2^255, 2^256-1, SHA-256 of bytes, random 256-bit}, fresh bases; \
-               positive: sign / sign_multiattr verify and satisfy the CL03 equation recomputed by the harness (v^e = prod a_i^m_i * b^s * c, 0 < v < N), disclose_selectively for ALL 2^n hidden sets verifies (and, for the same sets listed out of order or with repeated positions, whatever the call returns verifies; it may refuse), byte and JSON round trips, e prime (own Miller-Rabin + GMP) of exactly le bits coprime to (p-1)(q-1), s of exactly ls bits; \
+               positive: sign / sign_multiattr verify and satisfy the CL03 equation recomputed by the harness (v^e = prod a_i^m_i * b^s * c, 0 < v < N), disclose_selectively for ALL 2^n hidden sets verifies (and, for the same sets listed out of order or with repeated positions, whatever the call returns verifies; it may refuse), byte and JSON round trips, e prime (own Miller-Rabin + GMP) of exactly le bits coprime to (p-1)(q-1), s of exactly ls bits, e and s never repeated across the signatures of the whole run (all threads); \
                negative (attacker programs need no secret key): every attribute +-1 / bit flip / random, swaps, dropped attribute, shift by k*e with v*a_i^k for k in {1, 2, -1, -2} (oversized and negative attributes), \
                single-field edits of e, s, v (+-1, bit flip, 0, 1), field swaps, trivial-exponent forgery e = 1, other bases, rotated bases, other key; oracle: verify is false; \
                attribute-count sweep n = 6..=24 (quick) / 6..=70 (thorough); volume: 3200 (quick) / 40000 (thorough) signatures over one or two attributes, each verified before and after the byte codec; byte round trip of constructed signatures with tiny / maximal / leading-zero components; non-trivial = n >= 2 or a negative family executed; evaluations = verifications"
